@@ -409,6 +409,11 @@ class Terms:
                         paths.add(root_name(n))
                 elif isinstance(n, ast.Call) and isinstance(n.func, ast.Attribute) and n.func.attr not in PURE_METHODS:
                     p = access_path(n.func.value)
+                    if p == self.selfn and self.self_effects is not None:
+                        eff = self.self_effects(n.func.attr)
+                        if eff is not None:
+                            paths |= {self.selfn + "." + a for a in eff}
+                            continue
                     if p and n.func.attr in ("sort", "reverse"):
                         paths.add("~perm:" + p)
                     elif p:
@@ -1053,6 +1058,8 @@ def self_effects_of(repo, cls, depth=4):
             return None
         cache[meth] = set()          # recursion guard
         fn = r[1]
+        if any(isinstance(d, ast.Name) and d.id == "staticmethod" for d in fn.decorator_list):
+            return cache[meth]       # no access to the instance at all
         ps = [a.arg for a in fn.args.posonlyargs + fn.args.args]
         if not ps:
             cache[meth] = set()
